@@ -5,6 +5,7 @@
 From Coq Require Import ZArith List Bool.
 Import ListNotations.
 Require Import Amoco.C09.Model Amoco.C09.Proofs.
+Require Amoco.C09.Restore Amoco.C09.RestoreProofs.
 Open Scope Z_scope.
 
 (* Aliasing not assumed away: for EVERY pointer assignment (equal, partially overlapping, disjoint), replaying the
@@ -38,6 +39,33 @@ Theorem C09_same_address_twice_refuted :
   exec_seq sigma P zero 101 = 9 /\ replay sigma (build P) zero 101 = 2.
 Proof. exact same_address_twice_refuted. Qed.
 Print Assumptions C09_same_address_twice_refuted.
+
+(* Stores through ONE pointer, any number of them at the same or overlapping offsets (the case the theorems above exclude),
+   as the mapper handles them after the fix: commit: the memory is the last-write-wins content of the program, and replaying
+   the ordered map - one entry per pointer, widened from the current memory - gives the same bytes at every address. *)
+Theorem C09_memory_with_repeated_stores : forall p a,
+  Restore.content (Restore.hist (Restore.run p)) a = Restore.content p a.
+Proof. exact RestoreProofs.restore_memory. Qed.
+Print Assumptions C09_memory_with_repeated_stores.
+
+Theorem C09_replay_with_repeated_stores : forall p a,
+  Restore.content (Restore.ents (Restore.run p)) a = Restore.content p a.
+Proof. exact RestoreProofs.restore_entries_replay. Qed.
+Print Assumptions C09_replay_with_repeated_stores.
+
+(* the code before the fix (upper bytes taken from the value recorded with the earlier store) is refuted *)
+Theorem C09_stale_widening_refuted : exists p a,
+  Restore.content (Restore.hist (Restore.run_stale p)) a <> Restore.content p a /\
+  Restore.content (Restore.ents (Restore.run_stale p)) a <> Restore.content p a /\
+  Restore.content (Restore.ents (Restore.run p)) a = Restore.content p a.
+Proof. exact RestoreProofs.stale_refuted. Qed.
+Print Assumptions C09_stale_widening_refuted.
+
+Example C09_restore_nonvacuous :
+  let p := [(2, [80; 220; 63; 243]); (4, [182; 135]); (2, [106; 145; 144; 207]); (4, [73])] in
+  Restore.ents (Restore.run p) = [(2, [106; 145; 144; 207]); (4, [73; 207])] /\
+  Restore.content (Restore.hist (Restore.run p)) 5 = Some 207.
+Proof. vm_compute. split; reflexivity. Qed.
 
 Example C09_nonvacuous :
   let P := [St (0, 0) [1; 2; 3; 4]; St (1, 2) [9; 8]; St (0, 8) [5]] in
